@@ -161,7 +161,7 @@ contract(_MOD + '.convert_none_to_empty', props=['C18'], params={'json_data': DO
                    "json_data['extra'][2][*]"])
 
 # a YANG list keyed by coef_order carries no order of its own: the legacy polynomial is ordered by the key
-contract(_MOD + '.convert_back_nf_coef', name=_MOD + '.convert_back_nf_coef[entries not in key order]', props=['C18'],
+contract(_MOD + '.convert_back_nf_coef', name=_MOD + '.convert_back_nf_coef[entries not in key order]', props=['C18', 'C04'],
          params={'json_data': dct(Edfa=lst(dct(type_variety=string(), nf_coef=lst(dct(coef_order=const(2), nf_coef=real()),
                                                                                   dct(coef_order=const(0), nf_coef=real()),
                                                                                   dct(coef_order=const(3), nf_coef=real()),
@@ -170,7 +170,7 @@ contract(_MOD + '.convert_back_nf_coef', name=_MOD + '.convert_back_nf_coef[entr
          ensures=[('coefficients_by_ascending_order_key', "len(r) == 4 and r[0] == o[1]['nf_coef'] and r[1] == o[3]['nf_coef'] and "
                                                           "r[2] == o[0]['nf_coef'] and r[3] == o[2]['nf_coef']")],
          modifies=["json_data['Edfa'][0][*]"], use_at_calls=False)
-contract(_MOD + '.convert_back_nf_fit_coef', name=_MOD + '.convert_back_nf_fit_coef[entries not in key order]', props=['C18'],
+contract(_MOD + '.convert_back_nf_fit_coef', name=_MOD + '.convert_back_nf_fit_coef[entries not in key order]', props=['C18', 'C04'],
          params={'json_data': dct(nf_fit_coeff=lst(dct(coef_order=const(1), nf_coef=real()), dct(coef_order=const(0), nf_coef=real()),
                                                    dct(coef_order=const(2), nf_coef=real())))},
          let={'o': "old(json_data['nf_fit_coeff'])", 'r': "result['nf_fit_coeff']"},
